@@ -81,12 +81,75 @@ def structural():
     bad = []
     for m, fn in ci.methods.items():
         for n in ast.walk(fn):
-            if isinstance(n, ast.Assign) and isinstance(n.value, ast.Attribute) and n.value.attr in ("tokens", "option_tokens"):
-                bad.append("%s line %d binds %s without copying it" % (m, n.lineno, ast.unparse(n.value)))
+            if not isinstance(n, ast.Assign):
+                continue
+            copied = set()
+            for x in ast.walk(n.value):
+                # <expr>.tokens[...:...]  /  list(<expr>.tokens)  /  tuple(...)  are copies
+                if isinstance(x, ast.Subscript) and isinstance(x.slice, ast.Slice):
+                    copied.add(id(x.value))
+                if isinstance(x, ast.Call) and isinstance(x.func, ast.Name) and x.func.id in ("list", "tuple"):
+                    copied.update(id(a) for a in x.args)
+            for x in ast.walk(n.value):
+                if isinstance(x, ast.Attribute) and x.attr in ("tokens", "option_tokens") and id(x) not in copied:
+                    bad.append("%s line %d binds %s without copying it" % (m, n.lineno, ast.unparse(x)))
     obls.append({
         "name": "C05.DefaultArgsParser.frame.tokens_copied", "kind": "frame",
         "text": "no local is bound to the raw arguments' token list itself (only to a copy) before tokens are consumed",
         "status": "proved" if not bad else "failed",
         "note": "; ".join(bad),
+    })
+    # (4) nothing is ordered by a set: the iteration order of a set of strings depends on the interpreter's per-process
+    # hash seed, which is not one of (tokens, format, mode)
+    unordered = []
+    set_methods = {"difference", "union", "intersection", "symmetric_difference"}
+
+    def is_set_expr(x, tainted):
+        if isinstance(x, (ast.Set, ast.SetComp)):
+            return True
+        if isinstance(x, ast.Call):
+            if isinstance(x.func, ast.Name) and x.func.id in ("set", "frozenset"):
+                return True
+            if isinstance(x.func, ast.Attribute) and x.func.attr in set_methods:
+                return True
+        if isinstance(x, ast.Name) and x.id in tainted:
+            return True
+        if isinstance(x, ast.BinOp) and isinstance(x.op, (ast.BitOr, ast.BitAnd, ast.Sub, ast.BitXor)):
+            return is_set_expr(x.left, tainted) or is_set_expr(x.right, tainted)
+        return False
+
+    for m, fn in ci.methods.items():
+        tainted = set()
+        for _round in range(3):
+            for n in ast.walk(fn):
+                if isinstance(n, ast.Assign) and is_set_expr(n.value, tainted):
+                    for t in n.targets:
+                        if isinstance(t, ast.Name):
+                            tainted.add(t.id)
+        for n in ast.walk(fn):
+            its = []
+            if isinstance(n, ast.For):
+                its.append(n.iter)
+            if isinstance(n, (ast.ListComp, ast.GeneratorExp, ast.DictComp, ast.SetComp)):
+                its.extend(g.iter for g in n.generators)
+            if isinstance(n, ast.Call):
+                f = n.func
+                if isinstance(f, ast.Name) and f.id in ("list", "tuple", "iter", "next", "str", "repr", "enumerate", "zip"):
+                    its.extend(n.args)
+                if isinstance(f, ast.Attribute) and f.attr in ("join", "format", "extend", "update"):
+                    its.extend(n.args)
+                if isinstance(f, ast.Attribute) and f.attr == "pop" and is_set_expr(f.value, tainted):
+                    its.append(f.value)
+            if isinstance(n, ast.Starred):
+                its.append(n.value)
+            for it in its:
+                if is_set_expr(it, tainted):
+                    unordered.append("%s line %d: order taken from a set: %s" % (m, it.lineno, ast.unparse(it)[:60]))
+    obls.append({
+        "name": "C05.DefaultArgsParser.frame.no_hash_order", "kind": "frame",
+        "text": "no method of the parser iterates over, joins, formats or converts to a sequence a set (membership tests, "
+                "len() and sorted() are fine): results and messages cannot depend on the per-process hash seed",
+        "status": "proved" if not unordered else "failed",
+        "note": "; ".join(sorted(set(unordered))[:6]),
     })
     return obls
